@@ -137,6 +137,11 @@ impl Language for Python {
             };
         }
 
+        // The datetime helper functions name `datetime` themselves, whichever Rust type was mapped to it.
+        if self.types_for_custom_json_translation.contains("datetime") {
+            self.add_import("datetime".to_string(), "datetime".to_string());
+        }
+
         self.write_all_imports(w)?;
 
         self.types_for_custom_json_translation
